@@ -598,6 +598,7 @@ fn main() {
         b"a. 1 IN DS 1 1 259 00\n",
         b"$ORIGIN x.\n@ 1 IN NS @\n\"@\" NS a\n", b"$INCLUDE \"f i\" x.\n$INCLUDE g\n",
         // scan_string keeps the closing quote of an unescaped quoted string
+        b"a..b. 1 IN A 1.2.3.4\n", b"a.. 1 IN A 1.2.3.4\n", b".. 1 IN A 1.2.3.4\n", b"a. 1 IN NS b..c.\n", b"a. 1 IN NS b.\\..c.\n", b"a. 1 IN NS \"b..\"\n",
         b"$INCLUDE \"f\"x.\n", b"$INCLUDE \"f\"\n", b"$INCLUDE \"f\\ i\"x.\n", b"\"$TTL\" 5\n", b"$INCLUDE f\\ i x.\n",
         b"( a. 1 IN A 1.2.3.4 )\n", b"a. 1 IN A ( 1.2.3.4\n", b"a. 1 IN A 1.2.3.4 )\n",
         b"a. 1 IN TXT \"a\nb\"\n", b"a. 1 IN TXT \"abc", b"a. 1 IN TXT a\\", b"a. 1 IN TXT a\\0", b"@", b"$", b"\\#",
